@@ -181,6 +181,7 @@ fn with_limit(act: &Act, l: u128) -> Act {
     match act {
         Act::Open { t, v, buy, margin, lev, attach, directed, .. } => Act::Open { t: *t, v: *v, buy: *buy, margin: *margin, lev: *lev, limit: l, attach: *attach, directed: *directed },
         Act::Close { t, v, .. } => Act::Close { t: *t, v: *v, limit: l },
+        Act::Liquidate { who, v, target, attach, .. } => Act::Liquidate { who: who.clone(), v: *v, target: *target, limit: l, attach: *attach },
         other => other.clone(),
     }
 }
@@ -189,6 +190,8 @@ impl Monitor for Mon17 {
     fn before(&mut self, it: &mut Interp, act: &Act, pre: &Obs, out: &mut Outcome) -> Option<Violation> {
         let (v, t) = match act {
             Act::Open { v, t, .. } | Act::Close { v, t, .. } => (*v, *t),
+            // a liquidation that takes the whole position is a whole-position close carrying the liquidator's limit
+            Act::Liquidate { v, target, .. } => (*v, *target),
             _ => return None,
         };
         let snap = it.w.snapshot();
@@ -205,7 +208,7 @@ impl Monitor for Mon17 {
         // executed amount on the limited side and whether the trader receives (>= limit) or gives (<= limit)
         let (executed, receives) = match (act, eff) {
             (Act::Open { buy, .. }, Effect::Opened | Effect::Increased | Effect::Reduced) => (st0.base_asset_reserve.u128().abs_diff(st1.base_asset_reserve.u128()), *buy),
-            (Act::Close { .. }, Effect::Closed) => {
+            (Act::Close { .. }, Effect::Closed) | (Act::Liquidate { .. }, Effect::LiqFull) => {
                 let long = pre.pos[v][t].as_ref().map(|p| !p.size.is_negative()).unwrap_or(true);
                 (st0.quote_asset_reserve.u128().abs_diff(st1.quote_asset_reserve.u128()), long)
             }
@@ -218,6 +221,9 @@ impl Monitor for Mon17 {
             return None;
         }
         out.count("engine.limit_experiments");
+        if matches!(act, Act::Liquidate { .. }) {
+            out.count("engine.whole_liquidation_limit_experiments");
+        }
         self.near_limit += 1;
         let kind = format!("{}:{:?}", act.name(), eff);
         // (2) limits the executed amount satisfies - exactly at it, and far on the satisfied side: identical outcome
@@ -305,8 +311,8 @@ impl Property for C17 {
         w.handover = 2;
         w.vcfg = 2;
         w.close = 18;
-        w.squeeze = 2;
-        w.liq_weakest = 2;
+        w.squeeze = 3;
+        w.liq_weakest = 3;
         w.liquidate = 1;
         w.funding = 3;
         prop_oneof![
@@ -319,7 +325,7 @@ impl Property for C17 {
         tier.pick(120_000, 3_000_000)
     }
     fn rule(&self) -> String {
-        "vAMM level (15/16 of the cases): generated reserve pairs and swap histories as in C01; at every step the InputAmount/OutputAmount answer in the pre-state is compared with what the same swap exchanges (reserve deltas and event attributes), the requested side must move by exactly the requested amount, and the same swap is re-executed from the same pre-state with a limit of executed-1 / executed / executed+1 / half / double: it must execute (with an identical post-state) iff the executed amount satisfies the limit by direction, and a refusal must leave raw storage unchanged. Engine level (1/16): generated engine histories; every OpenPosition that opens / increases / reduces and every whole ClosePosition is run on a what-if copy without limit to learn the exchanged base (resp. quote) amount, then from the same pre-state with limits the executed amount satisfies (exactly at it; far on the satisfied side: half / one unit when receiving, double / beyond the position size / huge when giving: must succeed with an identical observable state) and limits it does not satisfy (one raw unit beside it; far on the failing side: double, beyond the trader's own position size, beyond the pool's depth / half, one unit: must fail, dump unchanged). Reversals, partial closes and liquidations have no clause in the statement and are counted only. Non-trivial: vAMM: a swap with non-zero division remainder and a limit within +-1 of the executed amount; engine: >= 2 limit experiments in the history. Distinct by digest of the case. Zero-amount swaps are outside the domain (no caller of the vAMM sends one).".into()
+        "vAMM level (15/16 of the cases): generated reserve pairs and swap histories as in C01; at every step the InputAmount/OutputAmount answer in the pre-state is compared with what the same swap exchanges (reserve deltas and event attributes), the requested side must move by exactly the requested amount, and the same swap is re-executed from the same pre-state with a limit of executed-1 / executed / executed+1 / half / double: it must execute (with an identical post-state) iff the executed amount satisfies the limit by direction, and a refusal must leave raw storage unchanged. Engine level (1/16): generated engine histories; every OpenPosition that opens / increases / reduces and every whole ClosePosition is run on a what-if copy without limit to learn the exchanged base (resp. quote) amount, then from the same pre-state with limits the executed amount satisfies (exactly at it; far on the satisfied side: half / one unit when receiving, double / beyond the position size / huge when giving: must succeed with an identical observable state) and limits it does not satisfy (one raw unit beside it; far on the failing side: double, beyond the trader's own position size, beyond the pool's depth / half, one unit: must fail, dump unchanged). A Liquidate that removes the whole position (directly, or because a partial liquidation could not be covered) is treated as a whole-position close carrying the liquidator's limit and gets the same experiments. Reversals, partial closes and partial liquidations (whose limit the engine scales) have no clause in the statement and are counted only. Non-trivial: vAMM: a swap with non-zero division remainder and a limit within +-1 of the executed amount; engine: >= 2 limit experiments in the history. Distinct by digest of the case. Zero-amount swaps are outside the domain (no caller of the vAMM sends one).".into()
     }
     fn assumptions(&self) -> Vec<String> {
         vec!["'honoured' is read in both directions: the limit is the only thing a limit may influence, so a swap whose limit is satisfied must behave exactly like the unlimited swap from the same state".into()]
